@@ -16,6 +16,7 @@ import (
 	"reflect"
 	"strings"
 	"sync"
+	"sync/atomic"
 	"time"
 
 	"github.com/hashicorp/eventlogger"
@@ -162,6 +163,7 @@ func Run(file string, seed int64, conc int) (*Report, error) {
 	rep.Runs++
 	var mu sync.Mutex
 	seen := map[string]int{}
+	var torn atomic.Int64
 	var wg sync.WaitGroup
 	src, _ := url.Parse("https://example.com/ids")
 	ffc := &cloudevents.FormatterFilter{Source: src}
@@ -176,9 +178,12 @@ func Run(file string, seed int64, conc int) (*Report, error) {
 					continue
 				}
 				b, _ := e.Format(string(cloudevents.FormatJSON))
+				b = append([]byte{}, b...) // decode a private copy: a document that still changes must not take the decoder down
 				var ce cloudevents.Event
 				if json.Unmarshal(b, &ce) == nil {
 					local = append(local, ce.ID)
+				} else {
+					torn.Add(1)
 				}
 			}
 			mu.Lock()
@@ -189,6 +194,9 @@ func Run(file string, seed int64, conc int) (*Report, error) {
 		}()
 	}
 	wg.Wait()
+	if n := torn.Load(); n > 0 {
+		rep.mm(Mismatch{What: "documents stored under concurrent formatting are valid JSON", Vector: "16 goroutines x 12000 events", Expected: "all valid", Observed: fmt.Sprintf("%d documents did not parse", n)})
+	}
 	dups := 0
 	ex := ""
 	for id, n := range seen {
@@ -368,6 +376,7 @@ func runVec(rep *Report, v *Vec, rng *rand.Rand, fresh map[string]bool) {
 		rep.mm(Mismatch{What: "no document stored under the configured format", Vector: v.V, Expected: v.Key, Observed: "absent"})
 		return
 	}
+	doc = append([]byte{}, doc...)
 	held.e, held.key, held.doc, held.vec = e, v.Key, append([]byte{}, doc...), v.V
 	var ce cloudevents.Event
 	var generic map[string]json.RawMessage
